@@ -1,5 +1,5 @@
 import AnySyncModel.OCache.Congr
-/-! preservation of layer B of the invariant by every transition (generated from the same case
+/-! preservation of layer C of the invariant by every transition (generated from the same case
 skeleton as StepA.lean; see notes/areas/ocache.md) -/
 namespace AnySync.OCache
 
@@ -159,66 +159,66 @@ local macro "frameD" r0:term "," i0:term : tactic => `(tactic|
    case hD4 => intro hcd; simp at hcd ⊢ <;> grind
    case hD5 => intro hc0; simp [hc0] <;> grind))
 
-theorem b_getLookup (s s' : State) (t : Tid) (hint : Option Id) 
+theorem c_getLookup (s s' : State) (t : Tid) (hint : Option Id) 
     (hA : InvA s) (hB : InvB s) (hC : InvC s) (hD : InvD s) (ht : t < s.nThr) (hpc : (s.thr t).pc = .getLookup)
-    (h : stepCore s t (markStarted s (s.thr t)) hint = some s') : InvB s' := by
+    (h : stepCore s t (markStarted s (s.thr t)) hint = some s') : InvC s' := by
   open_step
   split at h
   · cases h
-    frameB s.nHeap, s.nInst
+    frameC s.nHeap, s.nInst
   · split at h
     · rename_i r hm
       cases h
       have hr := (hM _ _ hm).1
       have hid := (hM _ _ hm).2
       ent_facts r
-      frameB s.nHeap, s.nInst
+      frameC s.nHeap, s.nInst
     · cases h
-      frameB s.nHeap, s.nInst
+      frameC s.nHeap, s.nInst
 
-theorem b_getWaitClose (s s' : State) (t : Tid) (hint : Option Id) (r : Ref) (l : Bool)
+theorem c_getWaitClose (s s' : State) (t : Tid) (hint : Option Id) (r : Ref) (l : Bool)
     (hA : InvA s) (hB : InvB s) (hC : InvC s) (hD : InvD s) (ht : t < s.nThr) (hpc : (s.thr t).pc = .getWaitClose r l)
-    (h : stepCore s t (markStarted s (s.thr t)) hint = some s') : InvB s' := by
+    (h : stepCore s t (markStarted s (s.thr t)) hint = some s') : InvC s' := by
   cases l
   all_goals
     open_step
     have hr : r < s.nHeap := by first | exact hTt | exact hTt.1
     ent_facts r
     split at h
-    · cases h; frameB s.nHeap, s.nInst
-    · cases h; frameB s.nHeap, s.nInst
-    · simp at h; cases h; frameB s.nHeap, s.nInst
+    · cases h; frameC s.nHeap, s.nInst
+    · cases h; frameC s.nHeap, s.nInst
+    · simp at h; cases h; frameC s.nHeap, s.nInst
 
-theorem b_waitCloseWait (s s' : State) (t : Tid) (hint : Option Id) (r : Ref) (g : Nat)
+theorem c_waitCloseWait (s s' : State) (t : Tid) (hint : Option Id) (r : Ref) (g : Nat)
     (hA : InvA s) (hB : InvB s) (hC : InvC s) (hD : InvD s) (ht : t < s.nThr) (hpc : (s.thr t).pc = .waitCloseWait r g)
-    (h : stepCore s t (markStarted s (s.thr t)) hint = some s') : InvB s' := by
+    (h : stepCore s t (markStarted s (s.thr t)) hint = some s') : InvC s' := by
   open_step
   split at h
-  · cases h; frameB s.nHeap, s.nInst
+  · cases h; frameC s.nHeap, s.nInst
   · cases h
 
-theorem b_loadBegin (s s' : State) (t : Tid) (hint : Option Id) (r : Ref)
+theorem c_loadBegin (s s' : State) (t : Tid) (hint : Option Id) (r : Ref)
     (hA : InvA s) (hB : InvB s) (hC : InvC s) (hD : InvD s) (ht : t < s.nThr) (hpc : (s.thr t).pc = .loadBegin r)
-    (h : stepCore s t (markStarted s (s.thr t)) hint = some s') : InvB s' := by
+    (h : stepCore s t (markStarted s (s.thr t)) hint = some s') : InvC s' := by
   open_step
   have hr : r < s.nHeap := hTt.1
   ent_facts r
   cases h
-  frameB r, s.nInst
+  frameC r, s.nInst
 
-theorem b_loadCommit (s s' : State) (t : Tid) (hint : Option Id) (r : Ref) (v : Option Inst) (ab : Bool)
+theorem c_loadCommit (s s' : State) (t : Tid) (hint : Option Id) (r : Ref) (v : Option Inst) (ab : Bool)
     (hA : InvA s) (hB : InvB s) (hC : InvC s) (hD : InvD s) (ht : t < s.nThr) (hpc : (s.thr t).pc = .loadCommit r v ab)
-    (h : stepCore s t (markStarted s (s.thr t)) hint = some s') : InvB s' := by
+    (h : stepCore s t (markStarted s (s.thr t)) hint = some s') : InvC s' := by
   open_step
   have hr : r < s.nHeap := hTt.1
   ent_facts r
   split at h
-  · cases h; frameB r, s.nInst
-  · cases h; frameB r, s.nInst
+  · cases h; frameC r, s.nInst
+  · cases h; frameC r, s.nInst
 
-theorem b_loadSignal (s s' : State) (t : Tid) (hint : Option Id) (r : Ref)
+theorem c_loadSignal (s s' : State) (t : Tid) (hint : Option Id) (r : Ref)
     (hA : InvA s) (hB : InvB s) (hC : InvC s) (hD : InvD s) (ht : t < s.nThr) (hpc : (s.thr t).pc = .loadSignal r)
-    (h : stepCore s t (markStarted s (s.thr t)) hint = some s') : InvB s' := by
+    (h : stepCore s t (markStarted s (s.thr t)) hint = some s') : InvC s' := by
   open_step
   have hr : r < s.nHeap := hTt.1
   ent_facts r
@@ -227,15 +227,15 @@ theorem b_loadSignal (s s' : State) (t : Tid) (hint : Option Id) (r : Ref)
   simp only [markStarted_retries]
   split
   · split
-    · frameB r, s.nInst
-    · frameB r, s.nInst
+    · frameC r, s.nInst
+    · frameC r, s.nInst
   · split
-    · frameB r, s.nInst
-    · frameB r, s.nInst
+    · frameC r, s.nInst
+    · frameC r, s.nInst
 
-theorem b_getWaitLoad (s s' : State) (t : Tid) (hint : Option Id) (r : Ref)
+theorem c_getWaitLoad (s s' : State) (t : Tid) (hint : Option Id) (r : Ref)
     (hA : InvA s) (hB : InvB s) (hC : InvC s) (hD : InvD s) (ht : t < s.nThr) (hpc : (s.thr t).pc = .getWaitLoad r)
-    (h : stepCore s t (markStarted s (s.thr t)) hint = some s') : InvB s' := by
+    (h : stepCore s t (markStarted s (s.thr t)) hint = some s') : InvC s' := by
   open_step
   have hr : r < s.nHeap := hTt
   ent_facts r
@@ -245,107 +245,107 @@ theorem b_getWaitLoad (s s' : State) (t : Tid) (hint : Option Id) (r : Ref)
     simp only [markStarted_retries]
     split
     · split
-      · frameB s.nHeap, s.nInst
-      · frameB s.nHeap, s.nInst
+      · frameC s.nHeap, s.nInst
+      · frameC s.nHeap, s.nInst
     · split
-      · frameB s.nHeap, s.nInst
-      · frameB s.nHeap, s.nInst
+      · frameC s.nHeap, s.nInst
+      · frameC s.nHeap, s.nInst
   · cases h
 
-theorem b_pickLookup (s s' : State) (t : Tid) (hint : Option Id) 
+theorem c_pickLookup (s s' : State) (t : Tid) (hint : Option Id) 
     (hA : InvA s) (hB : InvB s) (hC : InvC s) (hD : InvD s) (ht : t < s.nThr) (hpc : (s.thr t).pc = .pickLookup)
-    (h : stepCore s t (markStarted s (s.thr t)) hint = some s') : InvB s' := by
+    (h : stepCore s t (markStarted s (s.thr t)) hint = some s') : InvC s' := by
   open_step
   split at h
-  · cases h; frameB s.nHeap, s.nInst
+  · cases h; frameC s.nHeap, s.nInst
   · rename_i r hm
     have hr := (hM _ _ hm).1
     have hid := (hM _ _ hm).2
     ent_facts r
     split at h
-    · cases h; frameB s.nHeap, s.nInst
-    · cases h; frameB s.nHeap, s.nInst
+    · cases h; frameC s.nHeap, s.nInst
+    · cases h; frameC s.nHeap, s.nInst
 
-theorem b_pickWaitLoad (s s' : State) (t : Tid) (hint : Option Id) (r : Ref)
+theorem c_pickWaitLoad (s s' : State) (t : Tid) (hint : Option Id) (r : Ref)
     (hA : InvA s) (hB : InvB s) (hC : InvC s) (hD : InvD s) (ht : t < s.nThr) (hpc : (s.thr t).pc = .pickWaitLoad r)
-    (h : stepCore s t (markStarted s (s.thr t)) hint = some s') : InvB s' := by
+    (h : stepCore s t (markStarted s (s.thr t)) hint = some s') : InvC s' := by
   open_step
   have hr : r < s.nHeap := hTt
   ent_facts r
   split at h
   · split at h
-    · cases h; frameB s.nHeap, s.nInst
+    · cases h; frameC s.nHeap, s.nInst
     · split at h
-      · cases h; frameB s.nHeap, s.nInst
-      · cases h; frameB s.nHeap, s.nInst
+      · cases h; frameC s.nHeap, s.nInst
+      · cases h; frameC s.nHeap, s.nInst
   · cases h
 
-theorem b_addStart (s s' : State) (t : Tid) (hint : Option Id) 
+theorem c_addStart (s s' : State) (t : Tid) (hint : Option Id) 
     (hA : InvA s) (hB : InvB s) (hC : InvC s) (hD : InvD s) (ht : t < s.nThr) (hpc : (s.thr t).pc = .addStart)
-    (h : stepCore s t (markStarted s (s.thr t)) hint = some s') : InvB s' := by
+    (h : stepCore s t (markStarted s (s.thr t)) hint = some s') : InvC s' := by
   open_step
   split at h
-  · cases h; frameB s.nHeap, s.nInst
+  · cases h; frameC s.nHeap, s.nInst
   · split at h
-    · cases h; frameB s.nHeap, s.nInst
-    · cases h; frameB s.nHeap, s.nInst
+    · cases h; frameC s.nHeap, s.nInst
+    · cases h; frameC s.nHeap, s.nInst
 
-theorem b_removeLookup (s s' : State) (t : Tid) (hint : Option Id) 
+theorem c_removeLookup (s s' : State) (t : Tid) (hint : Option Id) 
     (hA : InvA s) (hB : InvB s) (hC : InvC s) (hD : InvD s) (ht : t < s.nThr) (hpc : (s.thr t).pc = .removeLookup)
-    (h : stepCore s t (markStarted s (s.thr t)) hint = some s') : InvB s' := by
+    (h : stepCore s t (markStarted s (s.thr t)) hint = some s') : InvC s' := by
   open_step
   split at h
-  · cases h; frameB s.nHeap, s.nInst
+  · cases h; frameC s.nHeap, s.nInst
   · split at h
-    · cases h; frameB s.nHeap, s.nInst
+    · cases h; frameC s.nHeap, s.nInst
     · rename_i r hm
       have hr := (hM _ _ hm).1
       ent_facts r
-      cases h; frameB s.nHeap, s.nInst
+      cases h; frameC s.nHeap, s.nInst
 
-theorem b_removeSameLookup (s s' : State) (t : Tid) (hint : Option Id) 
+theorem c_removeSameLookup (s s' : State) (t : Tid) (hint : Option Id) 
     (hA : InvA s) (hB : InvB s) (hC : InvC s) (hD : InvD s) (ht : t < s.nThr) (hpc : (s.thr t).pc = .removeSameLookup)
-    (h : stepCore s t (markStarted s (s.thr t)) hint = some s') : InvB s' := by
+    (h : stepCore s t (markStarted s (s.thr t)) hint = some s') : InvC s' := by
   open_step
   split at h
-  · cases h; frameB s.nHeap, s.nInst
+  · cases h; frameC s.nHeap, s.nInst
   · split at h
     · rename_i r _ _ hm _
       have hr := (hM _ _ hm).1
       ent_facts r
       split at h
-      · cases h; frameB s.nHeap, s.nInst
-      · cases h; frameB s.nHeap, s.nInst
-    · cases h; frameB s.nHeap, s.nInst
+      · cases h; frameC s.nHeap, s.nInst
+      · cases h; frameC s.nHeap, s.nInst
+    · cases h; frameC s.nHeap, s.nInst
 
-theorem b_tryRemoveLookup (s s' : State) (t : Tid) (hint : Option Id) 
+theorem c_tryRemoveLookup (s s' : State) (t : Tid) (hint : Option Id) 
     (hA : InvA s) (hB : InvB s) (hC : InvC s) (hD : InvD s) (ht : t < s.nThr) (hpc : (s.thr t).pc = .tryRemoveLookup)
-    (h : stepCore s t (markStarted s (s.thr t)) hint = some s') : InvB s' := by
+    (h : stepCore s t (markStarted s (s.thr t)) hint = some s') : InvC s' := by
   open_step
   split at h
-  · cases h; frameB s.nHeap, s.nInst
+  · cases h; frameC s.nHeap, s.nInst
   · split at h
-    · cases h; frameB s.nHeap, s.nInst
+    · cases h; frameC s.nHeap, s.nInst
     · rename_i r hm
       have hr := (hM _ _ hm).1
       ent_facts r
       split at h
-      · cases h; frameB s.nHeap, s.nInst
-      · cases h; frameB s.nHeap, s.nInst
+      · cases h; frameC s.nHeap, s.nInst
+      · cases h; frameC s.nHeap, s.nInst
 
-theorem b_doLocked (s s' : State) (t : Tid) (hint : Option Id) 
+theorem c_doLocked (s s' : State) (t : Tid) (hint : Option Id) 
     (hA : InvA s) (hB : InvB s) (hC : InvC s) (hD : InvD s) (ht : t < s.nThr) (hpc : (s.thr t).pc = .doLocked)
-    (h : stepCore s t (markStarted s (s.thr t)) hint = some s') : InvB s' := by
+    (h : stepCore s t (markStarted s (s.thr t)) hint = some s') : InvC s' := by
   open_step
   split at h
-  · cases h; frameB s.nHeap, s.nInst
+  · cases h; frameC s.nHeap, s.nInst
   · split at h
-    · cases h; frameB s.nHeap, s.nInst
-    · cases h; frameB s.nHeap, s.nInst
+    · cases h; frameC s.nHeap, s.nInst
+    · cases h; frameC s.nHeap, s.nInst
 
-theorem b_forEach (s s' : State) (t : Tid) (hint : Option Id) 
+theorem c_forEach (s s' : State) (t : Tid) (hint : Option Id) 
     (hA : InvA s) (hB : InvB s) (hC : InvC s) (hD : InvD s) (ht : t < s.nThr) (hpc : (s.thr t).pc = .forEach)
-    (h : stepCore s t (markStarted s (s.thr t)) hint = some s') : InvB s' := by
+    (h : stepCore s t (markStarted s (s.thr t)) hint = some s') : InvC s' := by
   open_step
   have hfe : ∀ i, i ∈ (mapRefs s).filterMap (fun r => if ((s.heap r).loadDone && !(s.heap r).isClosing) = true then (s.heap r).value else none) →
       i < s.nInst ∧ ((s.inst i).st = .live ∨ (s.inst i).st = .closing ∨ (s.inst i).st = .closed) ∧ (s.inst i).st ≠ .closed := by
@@ -358,26 +358,26 @@ theorem b_forEach (s s' : State) (t : Tid) (hint : Option Id)
       have := val_loaded (hA.ent r hr) (hB.ent r hr) i hv
       exact ⟨this.1, (loaded_iff _).1 this.2.1, this.2.2.2 hc.2.2⟩
     · cases hv
-  cases h; frameB s.nHeap, s.nInst
+  cases h; frameC s.nHeap, s.nInst
 
-theorem b_rmWaitLoad (s s' : State) (t : Tid) (hint : Option Id) (r : Ref)
+theorem c_rmWaitLoad (s s' : State) (t : Tid) (hint : Option Id) (r : Ref)
     (hA : InvA s) (hB : InvB s) (hC : InvC s) (hD : InvD s) (ht : t < s.nThr) (hpc : (s.thr t).pc = .rmWaitLoad r)
-    (h : stepCore s t (markStarted s (s.thr t)) hint = some s') : InvB s' := by
+    (h : stepCore s t (markStarted s (s.thr t)) hint = some s') : InvC s' := by
   open_step
   have hr : r < s.nHeap := hTt
   ent_facts r
   split at h
   · split at h
     · have hh := afterRemove_shape h
-      with_after hh (frameB s.nHeap, s.nInst)
-    · cases h; frameB s.nHeap, s.nInst
+      with_after hh (frameC s.nHeap, s.nInst)
+    · cases h; frameC s.nHeap, s.nInst
   · cases h
 
-theorem b_setClosingWait (s s' : State) (t : Tid) (hint : Option Id) (r : Ref)
+theorem c_setClosingWait (s s' : State) (t : Tid) (hint : Option Id) (r : Ref)
     (hA : InvA s) (hB : InvB s) (hC : InvC s) (hD : InvD s) (ht : t < s.nThr)
     (hpc : (s.thr t).pc = .rmSetClosing r ∨ ∃ g, (s.thr t).pc = .rmClosingWait r g)
     (hr : r < s.nHeap) (hld1 : (s.heap r).loadDone = true) (hle : (s.heap r).loadErr = false)
-    (h : setClosingWait s t (markStarted s (s.thr t)) r hint = some s') : InvB s' := by
+    (h : setClosingWait s t (markStarted s (s.thr t)) r hint = some s') : InvC s' := by
   have hTd := (hA.thr t ht).1
   have hM := hA.map_ok
   have hcl : (s.thr t).pc.closerOf = none := by
@@ -401,9 +401,9 @@ theorem b_setClosingWait (s s' : State) (t : Tid) (hint : Option Id) (r : Ref)
   unfold setClosingWait at h
   simp only [markStarted_op, markStarted_todo] at h
   split at h
-  · cases h; frameB s.nHeap, s.nInst
+  · cases h; frameC s.nHeap, s.nInst
   · have hh := afterRemove_shape h
-    with_after hh (frameB s.nHeap, s.nInst)
+    with_after hh (frameC s.nHeap, s.nInst)
   · split at h
     · cases h
       exfalso; grind
@@ -413,40 +413,40 @@ theorem b_setClosingWait (s s' : State) (t : Tid) (hint : Option Id) (r : Ref)
         cases hst : (s.heap r).st <;> simp_all
       ins_facts i
       unfold markClosing startClose
-      frameB r, i
+      frameC r, i
 
-theorem b_rmSetClosing (s s' : State) (t : Tid) (hint : Option Id) (r : Ref)
+theorem c_rmSetClosing (s s' : State) (t : Tid) (hint : Option Id) (r : Ref)
     (hA : InvA s) (hB : InvB s) (hC : InvC s) (hD : InvD s) (ht : t < s.nThr) (hpc : (s.thr t).pc = .rmSetClosing r)
-    (h : stepCore s t (markStarted s (s.thr t)) hint = some s') : InvB s' := by
+    (h : stepCore s t (markStarted s (s.thr t)) hint = some s') : InvC s' := by
   have hTt := (hA.thr t ht).2
   rw [hpc] at hTt
   unfold stepCore at h
   rw [markStarted_pc, hpc] at h
-  exact b_setClosingWait s s' t hint r hA hB hC hD ht (Or.inl hpc) hTt.1 hTt.2.1 hTt.2.2 h
+  exact c_setClosingWait s s' t hint r hA hB hC hD ht (Or.inl hpc) hTt.1 hTt.2.1 hTt.2.2 h
 
-theorem b_rmClosingWait (s s' : State) (t : Tid) (hint : Option Id) (r : Ref) (g : Nat)
+theorem c_rmClosingWait (s s' : State) (t : Tid) (hint : Option Id) (r : Ref) (g : Nat)
     (hA : InvA s) (hB : InvB s) (hC : InvC s) (hD : InvD s) (ht : t < s.nThr) (hpc : (s.thr t).pc = .rmClosingWait r g)
-    (h : stepCore s t (markStarted s (s.thr t)) hint = some s') : InvB s' := by
+    (h : stepCore s t (markStarted s (s.thr t)) hint = some s') : InvC s' := by
   have hTt := (hA.thr t ht).2
   rw [hpc] at hTt
   unfold stepCore at h
   rw [markStarted_pc, hpc] at h
   simp only at h
   split at h
-  · exact b_setClosingWait s s' t hint r hA hB hC hD ht (Or.inr ⟨g, hpc⟩) hTt.1 hTt.2.1 hTt.2.2.1 h
+  · exact c_setClosingWait s s' t hint r hA hB hC hD ht (Or.inr ⟨g, hpc⟩) hTt.1 hTt.2.1 hTt.2.2.1 h
   · cases h
 
-theorem b_trySetClosing (s s' : State) (t : Tid) (hint : Option Id) (r : Ref)
+theorem c_trySetClosing (s s' : State) (t : Tid) (hint : Option Id) (r : Ref)
     (hA : InvA s) (hB : InvB s) (hC : InvC s) (hD : InvD s) (ht : t < s.nThr) (hpc : (s.thr t).pc = .trySetClosing r)
-    (h : stepCore s t (markStarted s (s.thr t)) hint = some s') : InvB s' := by
+    (h : stepCore s t (markStarted s (s.thr t)) hint = some s') : InvC s' := by
   open_step
   have hr : r < s.nHeap := hTt.1
   ent_facts r
   split at h
   · have hh := afterRemove_shape h
-    with_after hh (frameB s.nHeap, s.nInst)
+    with_after hh (frameC s.nHeap, s.nInst)
   · have hh := afterRemove_shape h
-    with_after hh (frameB s.nHeap, s.nInst)
+    with_after hh (frameC s.nHeap, s.nInst)
   · split at h
     · cases h
       exfalso; grind
@@ -456,26 +456,26 @@ theorem b_trySetClosing (s s' : State) (t : Tid) (hint : Option Id) (r : Ref)
         cases hst : (s.heap r).st <;> simp_all
       ins_facts i
       unfold markClosing startClose
-      frameB r, i
+      frameC r, i
 
-theorem b_gcCollect (s s' : State) (t : Tid) (hint : Option Id) 
+theorem c_gcCollect (s s' : State) (t : Tid) (hint : Option Id) 
     (hA : InvA s) (hB : InvB s) (hC : InvC s) (hD : InvD s) (ht : t < s.nThr) (hpc : (s.thr t).pc = .gcCollect)
-    (h : stepCore s t (markStarted s (s.thr t)) hint = some s') : InvB s' := by
+    (h : stepCore s t (markStarted s (s.thr t)) hint = some s') : InvC s' := by
   open_step
   split at h
-  · cases h; frameB s.nHeap, s.nInst
+  · cases h; frameC s.nHeap, s.nInst
   · have hh := nextTodo_shape false none h
     have hmr : ∀ r, r ∈ (mapRefs s).filter (fun r => (s.heap r).st == .active) →
         r < s.nHeap ∧ (s.heap r).st = .active := by
       intro r hr; simp [mem_mapRefs] at hr; exact ⟨hr.1.1, hr.2⟩
-    with_after hh (frameB s.nHeap, s.nInst)
+    with_after hh (frameC s.nHeap, s.nInst)
 
-theorem b_closeCollect_core (s s' : State) (t : Tid) (hint : Option Id) (th0 : Thread)
+theorem c_closeCollect_core (s s' : State) (t : Tid) (hint : Option Id) (th0 : Thread)
     (hA : InvA s) (hB : InvB s) (hC : InvC s) (hD : InvD s) (ht : t < s.nThr) (hpc : (s.thr t).pc = .closeCollect) (hop0 : th0.op = (s.thr t).op)
     (hsta0 : th0.stale = (markStarted s (s.thr t)).stale) (hstd0 : th0.started = true)
     (hcl0 : s.closed = false)
     (htd : ∀ r, r ∈ th0.todo ↔ r ∈ mapRefs s)
-    (h : nextTodo { s with closed := true } t th0 hint = some s') : InvB s' := by
+    (h : nextTodo { s with closed := true } t th0 hint = some s') : InvC s' := by
   have hM := hA.map_ok
   have hTt := (hA.thr t ht).2
   rw [hpc] at hTt
@@ -487,14 +487,14 @@ theorem b_closeCollect_core (s s' : State) (t : Tid) (hint : Option Id) (th0 : T
   have hmr : ∀ r, r ∈ th0.todo ↔ (r < s.nHeap ∧ s.map (s.heap r).id = some r) := by
     intro r; rw [htd r]; exact mem_mapRefs
   have hh := nextTodo_shape false none h
-  with_after hh (frameB s.nHeap, s.nInst)
+  with_after hh (frameC s.nHeap, s.nInst)
 
-theorem b_closeCollect (s s' : State) (t : Tid) (hint : Option Id)
+theorem c_closeCollect (s s' : State) (t : Tid) (hint : Option Id)
     (hA : InvA s) (hB : InvB s) (hC : InvC s) (hD : InvD s) (ht : t < s.nThr) (hpc : (s.thr t).pc = .closeCollect)
-    (h : stepCore s t (markStarted s (s.thr t)) hint = some s') : InvB s' := by
+    (h : stepCore s t (markStarted s (s.thr t)) hint = some s') : InvC s' := by
   open_step
   split at h
-  · cases h; frameB s.nHeap, s.nInst
+  · cases h; frameC s.nHeap, s.nInst
   · rename_i hncl
     let heap' : Ref → Entry := fun r =>
       if (mapRefs s).contains r && (s.heap r).cancelSet then { s.heap r with cancelled := true } else s.heap r
@@ -502,7 +502,7 @@ theorem b_closeCollect (s s' : State) (t : Tid) (hint : Option Id)
       intro r; simp only [heap']; split <;> constructor <;> rfl
     have hmrefs : ∀ r, r ∈ mapRefs s ↔ r ∈ mapRefs { s with heap := heap' } := by
       intro r; simp only [mem_mapRefs, (hce r).id]
-    exact b_closeCollect_core { s with heap := heap' } s' t hint
+    exact c_closeCollect_core { s with heap := heap' } s' t hint
       { op := (s.thr t).op, pc := .closeCollect, todo := mapRefs s, retries := (markStarted s (s.thr t)).retries,
         started := (markStarted s (s.thr t)).started, stale := (markStarted s (s.thr t)).stale }
       (invA_heap_congr hA hce) (invB_heap_congr hB hce) (invC_heap_congr hC hce) (invD_heap_congr hD hce)
@@ -535,9 +535,9 @@ local macro "open_env" : tactic => `(tactic|
    unfold envStep at h
    simp only [ht, if_true, hpc] at h))
 
-theorem b_env_load (s s' : State) (t : Tid) (v : Verdict) (hint : Option Id) (r : Ref) (i : Inst)
+theorem c_env_load (s s' : State) (t : Tid) (v : Verdict) (hint : Option Id) (r : Ref) (i : Inst)
     (hA : InvA s) (hB : InvB s) (hC : InvC s) (hD : InvD s) (ht : t < s.nThr) (hpc : (s.thr t).pc = .inLoad r i)
-    (h : envStep s t v hint = some s') : InvB s' := by
+    (h : envStep s t v hint = some s') : InvC s' := by
   open_env
   have hr : r < s.nHeap := hTt.1
   ent_facts r
@@ -545,8 +545,8 @@ theorem b_env_load (s s' : State) (t : Tid) (v : Verdict) (hint : Option Id) (r 
   obtain ⟨hJ1, hJ2, hJ3⟩ := hB.ins i hpi.1
   simp only [alive_iff] at hJ1
   cases v <;> simp only at h
-  · cases h; frameB r, i
-  · cases h; frameB r, i
+  · cases h; frameC r, i
+  · cases h; frameC r, i
   all_goals cases h
 
 set_option hygiene false in
@@ -581,32 +581,32 @@ local macro "closer_pre" : tactic => `(tactic|
    have hval := hTt.2.2.2
    ins_facts i))
 
-theorem b_closed_core (s s' : State) (t : Tid) (hint : Option Id) (r : Ref) (i : Inst)
+theorem c_closed_core (s s' : State) (t : Tid) (hint : Option Id) (r : Ref) (i : Inst)
     (ok : Bool) (err : Option Err)
     (hA : InvA s) (hB : InvB s) (hC : InvC s) (hD : InvD s) (ht : t < s.nThr) (hpc : (s.thr t).pc = .inClose r i ∨ (s.thr t).pc = .inTry r i)
     (h : afterRemove (closeAndDelete (s.setI i { s.inst i with st := .closed, closes := (s.inst i).closes + 1 }) r (s.heap r))
-      t (s.thr t) ok err hint = some s') : InvB s' := by
+      t (s.thr t) ok err hint = some s') : InvC s' := by
   closer_pre
   have hh := afterRemove_shape h
   unfold closeAndDelete at hh
-  with_after hh (frameB r, i)
+  with_after hh (frameC r, i)
 
-theorem b_busy_core (s s' : State) (t : Tid) (hint : Option Id) (r : Ref) (i : Inst)
+theorem c_busy_core (s s' : State) (t : Tid) (hint : Option Id) (r : Ref) (i : Inst)
     (ok : Bool) (err : Option Err)
     (hA : InvA s) (hB : InvB s) (hC : InvC s) (hD : InvD s) (ht : t < s.nThr) (hpt : (s.thr t).pc = .inTry r i)
     (h : afterRemove ((s.setI i { s.inst i with st := if (s.inst i).st = .closing then .live else (s.inst i).st }).setE r
         { s.heap r with st := .active, chOpen := false, closer := none })
-      t (s.thr t) ok err hint = some s') : InvB s' := by
+      t (s.thr t) ok err hint = some s') : InvC s' := by
   have hpc : (s.thr t).pc = .inClose r i ∨ (s.thr t).pc = .inTry r i := Or.inr hpt
   closer_pre
   have hnotclose : (s.thr t).op ≠ .close := by
     intro hop; have := (hcr hop).1; rw [hpt] at this; cases this
   have hh := afterRemove_shape h
-  with_after hh (frameB r, i)
+  with_after hh (frameC r, i)
 
-theorem b_env_close (s s' : State) (t : Tid) (v : Verdict) (hint : Option Id) (r : Ref) (i : Inst)
+theorem c_env_close (s s' : State) (t : Tid) (v : Verdict) (hint : Option Id) (r : Ref) (i : Inst)
     (hA : InvA s) (hB : InvB s) (hC : InvC s) (hD : InvD s) (ht : t < s.nThr) (hpc : (s.thr t).pc = .inClose r i)
-    (h : envStep s t v hint = some s') : InvB s' := by
+    (h : envStep s t v hint = some s') : InvC s' := by
   have hTt := (hA.thr t ht).2
   rw [hpc] at hTt
   simp only at hTt
@@ -614,12 +614,12 @@ theorem b_env_close (s s' : State) (t : Tid) (v : Verdict) (hint : Option Id) (r
   unfold envStep at h
   simp only [ht, if_true, hpc] at h
   cases v <;> simp only [hop, Bool.not_true, Bool.false_eq_true, if_false] at h
-  case closeRet => exact b_closed_core s s' t hint r i _ _ hA hB hC hD ht (Or.inl hpc) h
+  case closeRet => exact c_closed_core s s' t hint r i _ _ hA hB hC hD ht (Or.inl hpc) h
   all_goals cases h
 
-theorem b_env_try (s s' : State) (t : Tid) (v : Verdict) (hint : Option Id) (r : Ref) (i : Inst)
+theorem c_env_try (s s' : State) (t : Tid) (v : Verdict) (hint : Option Id) (r : Ref) (i : Inst)
     (hA : InvA s) (hB : InvB s) (hC : InvC s) (hD : InvD s) (ht : t < s.nThr) (hpc : (s.thr t).pc = .inTry r i)
-    (h : envStep s t v hint = some s') : InvB s' := by
+    (h : envStep s t v hint = some s') : InvC s' := by
   have hTt := (hA.thr t ht).2
   rw [hpc] at hTt
   simp only at hTt
@@ -627,78 +627,76 @@ theorem b_env_try (s s' : State) (t : Tid) (v : Verdict) (hint : Option Id) (r :
   unfold envStep at h
   simp only [ht, if_true, hpc] at h
   cases v <;> simp only [hop, Bool.not_true, Bool.false_eq_true, if_false, if_true] at h
-  case tryTrue => exact b_closed_core s s' t hint r i _ _ hA hB hC hD ht (Or.inr hpc) h
-  case tryErrTrue => exact b_closed_core s s' t hint r i _ _ hA hB hC hD ht (Or.inr hpc) h
-  case tryFalse => exact b_busy_core s s' t hint r i _ _ hA hB hC hD ht hpc h
-  case tryErrFalse => exact b_busy_core s s' t hint r i _ _ hA hB hC hD ht hpc h
+  case tryTrue => exact c_closed_core s s' t hint r i _ _ hA hB hC hD ht (Or.inr hpc) h
+  case tryErrTrue => exact c_closed_core s s' t hint r i _ _ hA hB hC hD ht (Or.inr hpc) h
+  case tryFalse => exact c_busy_core s s' t hint r i _ _ hA hB hC hD ht hpc h
+  case tryErrFalse => exact c_busy_core s s' t hint r i _ _ hA hB hC hD ht hpc h
   all_goals cases h
 
-theorem b_spawn (s : State) (op : Op) (hA : InvA s) (hB : InvB s) (hC : InvC s) (hD : InvD s) :
-    InvB (spawn s op) := by
+theorem c_spawn (s : State) (op : Op) (hA : InvA s) (hB : InvB s) (hC : InvC s) (hD : InvD s) :
+    InvC (spawn s op) := by
   unfold spawn
   constructor
-  · intro r hr; have e := hB.ent r hr; exact ⟨e.val_inst, e.pend_inst, e.val_pend⟩
-  · intro i hi; have e := hB.ins i hi; exact ⟨e.owned, e.closes, e.no_bad⟩
-  · intro t ht
-    by_cases e : t = s.nThr
-    · subst e
-      simp only [upd, if_true]
-      constructor <;> intros <;> (cases op <;> simp_all [firstPc, Pc.holds])
-    · have ht' : t < s.nThr := by
-        have : t < s.nThr + 1 := ht
-        omega
-      simp only [upd, e, if_false]
-      have b := hB.thr t ht'
-      exact ⟨b.held_id, b.ret_val, b.ret_objs, b.commit_live, b.load_loading⟩
+  intro t ht
+  by_cases e : t = s.nThr
+  · subst e
+    simp only [upd, if_true]
+    constructor <;> intros <;> (cases op <;> simp_all [firstPc, Pc.holds])
+  · have ht' : t < s.nThr := by
+      have : t < s.nThr + 1 := ht
+      omega
+    simp only [upd, e, if_false]
+    have b := hC.thr t ht'
+    exact ⟨b.stale_closed, b.held_fresh, b.ret_val, b.ret_objs, b.started_first⟩
 
 
 /-- every internal step preserves the layer -/
-theorem invb_step {s s' : State} {t : Tid} {hint : Option Id}
-    (hA : InvA s) (hB : InvB s) (hC : InvC s) (hD : InvD s) (h : step s t hint = some s') : InvB s' := by
+theorem invc_step {s s' : State} {t : Tid} {hint : Option Id}
+    (hA : InvA s) (hB : InvB s) (hC : InvC s) (hD : InvD s) (h : step s t hint = some s') : InvC s' := by
   unfold step at h
   split at h
   · rename_i ht
     simp only at h
     cases hpc : (s.thr t).pc
-    case getLookup => exact b_getLookup s s' t hint hA hB hC hD ht hpc h
-    case getWaitClose r l => exact b_getWaitClose s s' t hint r l hA hB hC hD ht hpc h
-    case waitCloseWait r g => exact b_waitCloseWait s s' t hint r g hA hB hC hD ht hpc h
-    case loadBegin r => exact b_loadBegin s s' t hint r hA hB hC hD ht hpc h
-    case loadCommit r v ab => exact b_loadCommit s s' t hint r v ab hA hB hC hD ht hpc h
-    case loadSignal r => exact b_loadSignal s s' t hint r hA hB hC hD ht hpc h
-    case getWaitLoad r => exact b_getWaitLoad s s' t hint r hA hB hC hD ht hpc h
-    case pickLookup => exact b_pickLookup s s' t hint hA hB hC hD ht hpc h
-    case pickWaitLoad r => exact b_pickWaitLoad s s' t hint r hA hB hC hD ht hpc h
-    case addStart => exact b_addStart s s' t hint hA hB hC hD ht hpc h
-    case removeLookup => exact b_removeLookup s s' t hint hA hB hC hD ht hpc h
-    case removeSameLookup => exact b_removeSameLookup s s' t hint hA hB hC hD ht hpc h
-    case tryRemoveLookup => exact b_tryRemoveLookup s s' t hint hA hB hC hD ht hpc h
-    case rmWaitLoad r => exact b_rmWaitLoad s s' t hint r hA hB hC hD ht hpc h
-    case rmSetClosing r => exact b_rmSetClosing s s' t hint r hA hB hC hD ht hpc h
-    case rmClosingWait r g => exact b_rmClosingWait s s' t hint r g hA hB hC hD ht hpc h
-    case trySetClosing r => exact b_trySetClosing s s' t hint r hA hB hC hD ht hpc h
-    case gcCollect => exact b_gcCollect s s' t hint hA hB hC hD ht hpc h
-    case closeCollect => exact b_closeCollect s s' t hint hA hB hC hD ht hpc h
-    case doLocked => exact b_doLocked s s' t hint hA hB hC hD ht hpc h
-    case forEach => exact b_forEach s s' t hint hA hB hC hD ht hpc h
+    case getLookup => exact c_getLookup s s' t hint hA hB hC hD ht hpc h
+    case getWaitClose r l => exact c_getWaitClose s s' t hint r l hA hB hC hD ht hpc h
+    case waitCloseWait r g => exact c_waitCloseWait s s' t hint r g hA hB hC hD ht hpc h
+    case loadBegin r => exact c_loadBegin s s' t hint r hA hB hC hD ht hpc h
+    case loadCommit r v ab => exact c_loadCommit s s' t hint r v ab hA hB hC hD ht hpc h
+    case loadSignal r => exact c_loadSignal s s' t hint r hA hB hC hD ht hpc h
+    case getWaitLoad r => exact c_getWaitLoad s s' t hint r hA hB hC hD ht hpc h
+    case pickLookup => exact c_pickLookup s s' t hint hA hB hC hD ht hpc h
+    case pickWaitLoad r => exact c_pickWaitLoad s s' t hint r hA hB hC hD ht hpc h
+    case addStart => exact c_addStart s s' t hint hA hB hC hD ht hpc h
+    case removeLookup => exact c_removeLookup s s' t hint hA hB hC hD ht hpc h
+    case removeSameLookup => exact c_removeSameLookup s s' t hint hA hB hC hD ht hpc h
+    case tryRemoveLookup => exact c_tryRemoveLookup s s' t hint hA hB hC hD ht hpc h
+    case rmWaitLoad r => exact c_rmWaitLoad s s' t hint r hA hB hC hD ht hpc h
+    case rmSetClosing r => exact c_rmSetClosing s s' t hint r hA hB hC hD ht hpc h
+    case rmClosingWait r g => exact c_rmClosingWait s s' t hint r g hA hB hC hD ht hpc h
+    case trySetClosing r => exact c_trySetClosing s s' t hint r hA hB hC hD ht hpc h
+    case gcCollect => exact c_gcCollect s s' t hint hA hB hC hD ht hpc h
+    case closeCollect => exact c_closeCollect s s' t hint hA hB hC hD ht hpc h
+    case doLocked => exact c_doLocked s s' t hint hA hB hC hD ht hpc h
+    case forEach => exact c_forEach s s' t hint hA hB hC hD ht hpc h
     all_goals (unfold stepCore at h; rw [markStarted_pc, hpc] at h; cases h)
   · cases h
 
-theorem invb_env {s s' : State} {t : Tid} {v : Verdict} {hint : Option Id}
+theorem invc_env {s s' : State} {t : Tid} {v : Verdict} {hint : Option Id}
     (hA : InvA s) (hB : InvB s) (hC : InvC s) (hD : InvD s)
-    (h : envStep s t v hint = some s') : InvB s' := by
+    (h : envStep s t v hint = some s') : InvC s' := by
   by_cases ht : t < s.nThr
   · cases hpc : (s.thr t).pc
-    case inLoad r i => exact b_env_load s s' t v hint r i hA hB hC hD ht hpc h
-    case inClose r i => exact b_env_close s s' t v hint r i hA hB hC hD ht hpc h
-    case inTry r i => exact b_env_try s s' t v hint r i hA hB hC hD ht hpc h
+    case inLoad r i => exact c_env_load s s' t v hint r i hA hB hC hD ht hpc h
+    case inClose r i => exact c_env_close s s' t v hint r i hA hB hC hD ht hpc h
+    case inTry r i => exact c_env_try s s' t v hint r i hA hB hC hD ht hpc h
     all_goals (unfold envStep at h; simp only [ht, if_true, hpc] at h; cases h)
   · unfold envStep at h; simp only [ht, if_false] at h; cases h
 
-theorem invb_next {s s' : State} {l : Label} (hI : Inv s) (h : next s l = some s') : InvB s' := by
+theorem invc_next {s s' : State} {l : Label} (hI : Inv s) (h : next s l = some s') : InvC s' := by
   cases l with
-  | spawn op => simp only [next] at h; cases h; exact b_spawn s op hI.a hI.b hI.c hI.d
-  | step t hint => exact invb_step hI.a hI.b hI.c hI.d h
-  | env t v hint => exact invb_env hI.a hI.b hI.c hI.d h
+  | spawn op => simp only [next] at h; cases h; exact c_spawn s op hI.a hI.b hI.c hI.d
+  | step t hint => exact invc_step hI.a hI.b hI.c hI.d h
+  | env t v hint => exact invc_env hI.a hI.b hI.c hI.d h
 
 end AnySync.OCache
